@@ -397,16 +397,16 @@ def yaml_streams(tier):
 
 PROPS['C17'] = dict(
     family='line', tags={'Y': 'yaml'},
-    theorems=['C17_quoted_round_trip', 'C17_quoted_clean', 'C17_scalar_round_trip', 'C17_environment_reads_back'],
+    theorems=['C17_quoted_round_trip', 'C17_quoted_clean', 'C17_scalar_round_trip', 'C17_environment_reads_back', 'C17_duration_round_trip', 'C17_one_liner_reads_back'],
     streams=yaml_streams,
     spec_kinds=['SPEC:C17'], corr_kinds=['DIFF:one-liner'],
     case_format='Y 1 <test-case configuration: os= kc= to=<secs.nanos> de= sk= sa= wa=<wait timeout> wp=x<hex wait path> env=x<hex name>:x<hex value>,...>|<hex of the one-line form>|<the configuration MarkdownParser reads back from ```scrut {...}>   '
                 'Y 2 <document configuration tt= sh= ap= pp= + defaults>|-|<serde_yaml::from_str(serde_yaml::to_string(c))>',
     rule='every subset of keys; durations from milliseconds to years (incl. nanosecond parts, exactly 900 s and 900.5 s); environment names (identifiers and arbitrary text) and values, wait paths and document paths assembled from quotes, backslashes, `: `, commas, braces, #, brackets, YAML indicators, true/null/~, tab, LF, DEL, NEL, ESC, non-ASCII and spaces at either end. '
          '2 of 3 cases go through to_yaml_one_liner -> fence line -> real MarkdownParser, 1 of 3 through serde_yaml with scrut\'s custom (de)serialisers. Distinct by configuration',
-    manifest=dict(text='Machine-checked theorems (Coq) about the part of the one-line form that is scrut\'s own code: a double-quoted scalar reads back as exactly the text it was written from for every Unicode text, contains nothing YAML would not read verbatim, and the plain-or-quoted notation of names and paths reads back likewise; the whole environment mapping {name: "value", ...} is read back by a reference reader of flow mappings as exactly the pairs written (C17_environment_reads_back), and that reader is applied to what the implementation wrote. The whole round trip (all keys, durations via humantime, serde_yaml) is decided on the implementation: configuration -> to_yaml_one_liner -> ```scrut {...} -> real MarkdownParser -> equal configuration, and serde_yaml to_string/from_str with the custom (de)serialisers; the written environment/path notation is compared with the model.',
-                  technique='Coq proof (escape/unescape state machine, 4-digit hex arithmetic) + differential write/read runs through the real parser and serde_yaml',
-                  note='Partial: serde_yaml and humantime are external; the record-level round trip is exercised, not proved.'),
+    manifest=dict(text='Machine-checked theorems (Coq): the whole one-line form {key: value, ...} -- to_yaml_one_liner transcribed key by key -- is read by a reference reader of that notation as exactly the configuration it was written from, for every subset of the eight settings (C17_one_liner_reads_back); every duration (timeout, wait, total_timeout) written by humantime::format_duration is read by humantime::parse_duration (both transcribed from humantime 2.4.0) as exactly that duration, for all seconds < 2^64 and nanoseconds < 10^9 (C17_duration_round_trip); a double-quoted scalar reads back as exactly the text it was written from for every Unicode text and contains nothing YAML would not read verbatim; the plain-or-quoted notation of names and paths reads back likewise; the environment mapping reads back as the pairs written. Tie to the code: the text the real to_yaml_one_liner writes is compared byte for byte with the model, the reference reader is applied to it, and the real MarkdownParser (serde_yaml) reads it back from a ```scrut {...} fence into an equal configuration; the front-matter form goes through serde_yaml to_string/from_str with the custom (de)serialisers.',
+                  technique='Coq proof (one-liner writer/reader over the eight keys, humantime format/parse state machine with u64 arithmetic, escape/unescape state machine) + differential write/read runs through the real parser and serde_yaml',
+                  note='Partial: serde_yaml itself is external -- the reference reader stands for it in the theorem and is compared with it on every generated configuration; the front-matter (block YAML) form is exercised, not proved.'),
     exhaustive={'quick': False, 'thorough': False},
     assumptions=['an omitted total_timeout reads back as absent, which means the documented default of 900 s: the oracle identifies the two'],
 )
